@@ -72,11 +72,19 @@ def case_strategy(draw, ctx):
     planes = [(s["axis"], s["pos"]) for s in sources]
     dispersive = draw(st.integers(0, 3)) == 0
     objects = []
-    for i in range(draw(st.integers(0, 2))):
+    for i in range(draw(st.sampled_from([0, 1, 1, 2]))):
         lo, hi = draw(scenes.box_strategy(shape))
         cut = any(lo[a] - 1 <= p <= hi[a] for a, p in planes)
         tiers = ("iso",) if cut else (("iso", "diag") if dispersive else ("iso", "diag", "full"))
         mat = draw(scenes.material_strategy(tiers=tiers, lossy=True))
+        if not cut and draw(st.integers(0, 3)) > 0:
+            # mixed symmetry classes in ONE material: every property is serialised on its own, so the least symmetric
+            # one need not be the permittivity
+            mat = draw(st.sampled_from([
+                {"eps": 2.25, "sigE": [0.0, 0.0, 5e3]}, {"eps": 3.0, "mu": [1.0, 2.0, 1.5]},
+                {"eps": [2.0, 2.0, 3.0], "mu": scenes._rot(0.3, 0.7, 1.1).__matmul__(
+                    __import__("numpy").diag([1.5, 2.0, 3.0])).__matmul__(scenes._rot(0.3, 0.7, 1.1).T).round(6).reshape(-1).tolist()},
+                {"eps": 1.5, "sigH": [1e8, 0.0, 2e8], "sigE": 1e3}]))
         objects.append({"name": f"box{i}", "lo": lo, "hi": hi, "material": mat, "order": draw(st.integers(0, 2))})
     disp_box = None
     if dispersive:
@@ -352,7 +360,7 @@ def _first_diff(a, b):
 
 
 SUBS = [
-    Sub(name="round_trip", body=body, strategy=lambda ctx: case_strategy(ctx), quick=8, thorough=480,
+    Sub(name="round_trip", body=body, strategy=lambda ctx: case_strategy(ctx), quick=12, thorough=480,
         lanes=("f64", "f32"), f32_fraction=0.25, quick_shards=2,
         rule="random serialisable setup -> JSON -> setup; both placed and run, everything bit-equal"),
 ]
